@@ -148,6 +148,7 @@ def run_job(job):
         'outside': {}, 'samples': [], 'mismatch': [],
     }
     E.decisions = []
+    E.arity = []
     validate = opts.get('validate', True)
 
     def native(inputs):
@@ -304,7 +305,11 @@ def _process_path(E, z3, h, param, pidx, kind, prop, exc, info, res, known, nati
         if any(r is True for kf, r in ks):
             bad_model = None
         else:
-            bad_model = model_now(*(extra + excl))
+            bad_model = None
+            if E.hints:
+                bad_model = model_now(*(extra + excl + list(E.hints)))
+            if bad_model is None:
+                bad_model = model_now(*(extra + excl))
         if bad_model is not None:
             inputs = eval_inputs(bad_model)
             nat = native(inputs)
